@@ -30,7 +30,16 @@ ASSUMPTIONS = [
     "a genuine datagram with bytes appended still opens under the key and counts as that genuine datagram "
     "(Packet.from_bytes ignores bytes beyond 20+length+16); the theorem calls it authentic",
 ]
-TRUSTED = ["harness/connsim.py abstract()/concrete(): translation between real bytes and symbolic datagrams using the real AESGCM"]
+TRUSTED = ["harness/connsim.py abstract()/concrete(): translation between real bytes and symbolic datagrams using the real AESGCM",
+           "harness/srvx.py ScriptedSocket: stands for the OS socket under _UdpServer.run (recvfrom returns a fresh bytes object, the *_into "
+           "calls write into the caller's buffer); a real localhost socket is not used"]
+LOOP_RULE = ("server-loop twin worlds (harness/srvx.py): 2 real UdpClients around the real UdpServerThread behind each front door "
+             "(TwistedServer.datagramReceived with a fresh thread / with the thread TwistedServer and ThreadedServer build themselves / the socket "
+             "loop _UdpServer.run on a scripted socket); in the attacked world every genuine datagram of the tick's victim may get forgeries made "
+             "from it without the key (same length+count under any header, re-typed, seq/ack rewritten, bit-flipped, truncated, valid-CRC plaintext, "
+             "wrong key, random body) directly before / after / around it in the SAME tick from the SAME address, the victim's datagrams being the "
+             "last of the tick; the twin has the same seed and no forgeries; handlers raise in some worlds; non-trivial = twin pair with at least "
+             "one same-length forgery directly before its genuine datagram")
 
 T = S.TICKS
 RING = 65535
@@ -893,6 +902,218 @@ def server_half_open(run, rng, n):
             w.close()
 
 
+
+# ------------------------------------------------------------------ the server loop behind every front door
+
+FORGE_CLASSES = ["same-shape", "same-shape", "same-shape", "retyped", "seq-rewrite", "ack-rewrite", "flip", "trunc",
+                 "plain", "wrongkey", "random-body"]
+
+
+def forge_from(arng, keys, d, cls):
+    """a datagram made WITHOUT the session key out of the genuine datagram d that is on the wire in the same tick
+    (the attacker reads the wire): the header of its own choice, d's length and count"""
+    h = S.unpack_header(d)
+    body = d[20:]
+    if cls == "same-shape-typed":
+        hh = [1, h[1], arng.choice([wire(h[2] + 1), 0x4000, h[2]]), arng.choice([h[3], 0x1234]), h[4], h[5], h[6], arng.choice([0xFFFFFFFF, h[7]])]
+        return S.pack_header(hh) + bytes(arng.randrange(256) for _ in range(len(body)))
+    if cls == "same-shape":
+        # any header with d's length / count, junk of d's size behind it
+        hh = [1, h[1], arng.choice([wire(h[2] + 1), wire(h[2] + 40), 0x4000, h[2]]), arng.choice([h[3], 0x1234, 0]),
+              arng.choice([5, 5, 4, 6, 7, 3]), h[5], h[6], arng.choice([0xFFFFFFFF, h[7], 0])]
+        return S.pack_header(hh) + bytes(arng.randrange(256) for _ in range(len(body)))
+    if cls == "retyped":
+        hh = list(h); hh[4] = arng.choice([t for t in (3, 4, 5, 6, 7) if t != h[4]])
+        return S.pack_header(hh) + body
+    if cls == "seq-rewrite":
+        hh = list(h); hh[2] = wire(h[2] + arng.choice([1, 2, 33, 300]))
+        return S.pack_header(hh) + body
+    if cls == "ack-rewrite":
+        hh = list(h); hh[3] = wire(h[3] + 1) if h[3] else 7; hh[7] = 0xFFFFFFFF
+        return S.pack_header(hh) + body
+    if cls == "flip":
+        m = bytearray(d); b = arng.randrange(8 * len(d)); m[b // 8] ^= 0x80 >> (b % 8)
+        return bytes(m)
+    if cls == "trunc":
+        return d[:arng.randrange(20, len(d))]
+    if cls == "plain":
+        pl = struct.pack(">H", arng.randrange(1, RING)) + b"FORGED-IN-THE-SAME-TICK"
+        return crc_frame(S.pack_header([1, h[1], wire(h[2] + 1), h[3], arng.choice([6, 5, 4]), len(pl), 1, 0xFFFFFFFF]), pl)
+    if cls == "wrongkey":
+        pl = struct.pack(">H", arng.randrange(1, RING)) + b"SEALED-UNDER-ANOTHER-KEY"
+        return seal_frame(keys.fixed(8), S.pack_header([1, h[1], wire(h[2] + 1), h[3], 6, len(pl), 1, 0]), pl)
+    return d[:20] + bytes(arng.randrange(256) for _ in range(len(body)))
+
+
+def _canon_entry(o):
+    """one entry of the server's linear log without the bytes that are random per process (the server hello
+    carries a fresh ephemeral key and salt)"""
+    if o[0] == 2 and o[2][4] == 2:
+        h = list(o[2]); h[5] = 0            # (its DER signature, hence its length, varies too)
+        return [2, o[1], h, o[3], b""]
+    return o
+
+
+def _canon_state(st):
+    out = []
+    for pool in st:
+        cl = []
+        for c in pool:
+            snap_ = [list(x) if isinstance(x, list) else x for x in c[5]]
+            if snap_:
+                snap_[4] = [[m[0], m[1], b"" if m[1] == 2 else m[2]] + list(m[3:]) for m in snap_[4]]
+                stats = list(snap_[15]); stats[1] = 0        # stats.dropped is what a discarded datagram may change
+                snap_[15] = stats
+            cl.append(list(c[:5]) + [snap_])
+        out.append(cl)
+    return out
+
+
+def server_loop_world(run, seed, front, attacked, steps, focus):
+    """one world of real clients around the real server loop behind `front`; attacked: forgeries derived from the
+    genuine datagrams of the SAME tick are put next to them (before / after / both).  focus: the attacked
+    client's datagrams are the last of their tick.  Same seed => same application schedule."""
+    from harness import srvsim as V, srvx as X
+    from mpgameserver.connection import PacketHeader
+    rng = random.Random(seed)
+    arng = random.Random(seed * 7919 + 17)
+    policy = V.random_policy(rng, p_raise=rng.choice([0.0, 0.2]), echo=1.0, chatty=False)
+    w = X.WorldX(run, rng, cfg=(5 * T, 2 * T, 1536, T), policy=policy, full=True, front=front, sentinel_first=True)
+    sim = w.sim
+    addrs = [("10.1.0.%d" % (i + 1), 5000 + i) for i in range(2)]
+    forged_log = {}        # step -> [(addr, class, position, raw)]
+    expected_dropped = {}  # addr -> forged datagrams that reach its connected object
+    info = {"same_tick_same_length": 0}
+    try:
+        recs = [w.add_client(a) for a in addrs]
+        for st in range(steps):
+            for i, rec in enumerate(recs):
+                hc = rec["hc"]
+                if hc.status() == 2:
+                    for _ in range(rng.choice([0, 0, 1, 1, 2])):
+                        hc.client.send(b"m%d-%d-%d-" % (i, st, rng.randrange(1000)) + bytes(rng.randrange(256) for _ in range(rng.choice([0, 3, 40]))),
+                                       retry=rng.choice([0, 1, -1]))
+            victim = addrs[st % 2]
+
+            def transform(batch, st=st, victim=victim):
+                if focus:
+                    batch = [x for x in batch if x[0] != victim] + [x for x in batch if x[0] == victim]
+                if not attacked:
+                    return batch
+                out = []
+                for (a, d) in batch:
+                    conn = sim.ctxt.connections.get(a)
+                    half_open = conn is None and a in sim.ctxt.temp_connections and len(d) >= 24 and d[12] == 3
+                    if a != victim or (conn is None and not half_open) or len(d) < 24 or d[12] == 1 or (d[12] == 3 and not half_open) \
+                            or arng.random() < 0.25:
+                        out.append((a, d))
+                        continue
+                    # towards a half-open slot only CHALLENGE_RESP-typed datagrams reach the connection object: forgeries that keep the type
+                    cls = arng.choice(["same-shape-typed", "seq-rewrite", "ack-rewrite", "flip", "random-body"] if half_open else FORGE_CLASSES)
+                    pos = arng.choice(["before", "before", "after", "both"])
+                    f = [forge_from(arng, sim.keys, d, cls) for _ in range(2 if pos == "both" else 1)]
+                    if half_open:
+                        f = [x for x in f if len(x) > 12 and x[12] == 3] or [d[:20] + bytes(arng.randrange(256) for _ in range(len(d) - 20))]
+                        pos = "before" if len(f) == 1 and pos == "both" else pos
+                        info["half_open"] = info.get("half_open", 0) + len(f)
+                    for x in f:
+                        forged_log.setdefault(st, []).append((a, cls, pos, x))
+                        try:
+                            PacketHeader.from_bytes(True, x)
+                            expected_dropped[a] = expected_dropped.get(a, 0) + 1
+                        except Exception:
+                            pass
+                        if len(x) == len(d) and pos != "after":
+                            info["same_tick_same_length"] += 1
+                    out += ([(a, f[0])] if pos in ("before", "both") else []) + [(a, d)] + ([(a, f[-1])] if pos in ("after", "both") else [])
+                return out
+            rand = [0x31000000 + 16 * st + i for i in range(8)]
+            if not w.step(300, [], rand, transform=transform):
+                break
+        w.finish()
+        dropped = {}
+        for a in addrs:
+            for c in sim.keep:
+                if getattr(c, "addr", None) == a and hasattr(c, "stats"):
+                    dropped[a] = dropped.get(a, 0) + c.stats.dropped
+        res = {"log": [_canon_entry(o) for o in sim.log], "states": [_canon_state(s_) for s_ in sim.states], "marks": list(sim.marks),
+               "dropped": dropped, "expected_dropped": expected_dropped, "forged": forged_log, "info": info,
+               "got": [sorted(r["hc"].got) for r in recs], "status": [r["hc"].status() for r in recs],
+               "died": sim.died, "internal": list(sim.internal), "calls": dict(getattr(sim.sock, "calls", {}))}
+        res["model_diff"] = sim.check_model(observe_errors=True) if attacked else None
+        return res
+    finally:
+        w.close()
+
+
+def server_loop_forgeries(run, rng, fronts, steps):
+    """C01 at the server's front doors.  The real UdpServerThread behind TwistedServer.datagramReceived, behind the
+    thread objects TwistedServer / ThreadedServer build themselves, and behind the socket loop of _UdpServer.run
+    (scripted socket): a world with forgeries next to the genuine datagrams they were derived from — same tick, same
+    source address, same length — and its twin without them must produce the same handler events, the same
+    datagrams towards the clients and the same pool contents at every tick (stats.dropped apart, which must count
+    exactly the forgeries)."""
+    for nw, front in enumerate(fronts):
+        seed = rng.randrange(1 << 30)
+        focus = nw % 5 != 4           # mostly: the victim's datagrams are the last the front door receives in their tick
+        from harness import srvx as X
+        with X.logging_enabled():
+            A = server_loop_world(run, seed, front, True, steps, focus)
+            B = server_loop_world(run, seed, front, False, steps, focus)
+        case = {"scenario": "server-loop-twin", "front": front, "seed": seed, "steps": steps}
+        run.evaluations += len(A["log"])
+        if A["internal"] or B["internal"]:
+            raise RuntimeError("harness-internal problem: %s" % (A["internal"] + B["internal"])[:3])
+        if B["died"] or not any(o[0] == 0 and o[1][0] == 4 for o in B["log"]):
+            raise RuntimeError("harness: the undisturbed world behind %s delivered nothing" % front)
+
+        def step_of(marks, idx):
+            return next((k for k, m in enumerate(marks) if idx < m), len(marks))
+
+        def forged_of(k):
+            # the D phase of model step k processes the batch fed by harness step k-1 (step 0 is start())
+            return [[list(a), cls, pos, x[:48]] for (a, cls, pos, x) in A["forged"].get(k - 1, [])]
+        bad = None
+        if A["died"]:
+            bad = dict(case, what_differs="the server loop died", forged=forged_of(len(A["marks"])))
+        if bad is None:
+            n = next((i for i, (x, y) in enumerate(zip(A["log"], B["log"])) if x != y), None)
+            if n is None and len(A["log"]) != len(B["log"]):
+                n = min(len(A["log"]), len(B["log"]))
+            if n is not None:
+                k = step_of(A["marks"], n)
+                bad = dict(case, what_differs="log", index=n, tick=k, forged_in_tick=forged_of(k),
+                           with_forgeries=lib.jsonable(A["log"][n] if n < len(A["log"]) else None),
+                           twin=lib.jsonable(B["log"][n] if n < len(B["log"]) else None))
+        if bad is None:
+            for k, (x, y) in enumerate(zip(A["states"], B["states"])):
+                if x != y:
+                    bad = dict(case, what_differs="pools", tick=k, forged_in_tick=forged_of(k), diff=first_diff(y, x))
+                    break
+        if bad is None and (A["got"] != B["got"] or A["status"] != B["status"]):
+            bad = dict(case, what_differs="what the clients received", status=[A["status"], B["status"]])
+        if bad is None:
+            for a, n in A["expected_dropped"].items():
+                if A["dropped"].get(a, 0) - B["dropped"].get(a, 0) != n:
+                    bad = dict(case, what_differs="stats.dropped", addr=list(a), forged_reaching_the_connection=n,
+                               dropped_with=A["dropped"].get(a, 0), dropped_twin=B["dropped"].get(a, 0))
+                    break
+        if bad is not None:
+            run.oracle_violation("server-loop world with forgeries next to genuine datagrams diverged from its twin without them",
+                                 bad, "server.py front door / UdpServerThread.run")
+        run.compare("srv_run", [dict(case, first_difference=lib.jsonable(A["model_diff"]))], ["agree"],
+                    ["agree" if not A["model_diff"] else "differ"])
+        nf = sum(len(v) for v in A["forged"].values())
+        run.count("server_loop_twin_worlds")
+        run.count("server_loop_forgeries", nf)
+        run.count("server_loop_forgeries_same_tick_same_length_before_genuine", A["info"]["same_tick_same_length"])
+        run.count("server_loop_forgeries_towards_half_open_slot", A["info"].get("half_open", 0))
+        for api, c in A["calls"].items():
+            run.count("socket_loop_%s_calls" % api, c)
+        if nf == 0 or A["info"]["same_tick_same_length"] == 0:
+            raise RuntimeError("harness: no forgery was placed in front of a genuine datagram of the same length (%s)" % front)
+        run.nt(("server-loop-twin", front, nf))
+
 def run(run):
     logging.disable(logging.CRITICAL)
     inj = Injector(run)
@@ -912,6 +1133,9 @@ def run(run):
         raise RuntimeError("no handshake session completed: the harness is not exercising connected endpoints")
     corr_bytes(run, inj)
     server_half_open(run, run.rng, 8 if thorough else 4)
+    from harness import srvx as X
+    server_loop_forgeries(run, run.rng, list(X.FRONTS) * (12 if thorough else 2) + ["udpserver"] * 2, 60 if thorough else 36)
+    run.rules.append(LOOP_RULE)
     run.count("injected_total", inj.n)
     run.sample({"oracle": "deep snapshot equality around each injected datagram; twin session comparison",
                 "injected": inj.n, "refused_by_header_gate": inj.gate})
